@@ -68,6 +68,16 @@ func detect(in []byte, limit uint32, entry string) (*mimetype.MIME, error) {
 		return mimetype.DetectReader(iotest1{bytes.NewReader(in)})
 	case "DetectReaderBufio": // a *bufio.Reader with the default 4096-byte buffer
 		return mimetype.DetectReader(bufio.NewReader(bytes.NewReader(in)))
+	case "DetectReaderPreRead": // a seekable reader that stands behind a (binary) prefix it has already delivered
+		pre := []byte("\x00\x01\x02 BINARY PREFIX \x00")
+		br := bytes.NewReader(append(append([]byte{}, pre...), in...))
+		br.Seek(int64(len(pre)), io.SeekStart)
+		return mimetype.DetectReader(br)
+	case "DetectReaderPreReadText": // the same with a clean text prefix
+		pre := []byte("a clean text prefix that was read before\n")
+		br := bytes.NewReader(append(append([]byte{}, pre...), in...))
+		io.CopyN(io.Discard, br, int64(len(pre)))
+		return mimetype.DetectReader(br)
 	case "DetectReaderBufio16":
 		return mimetype.DetectReader(bufio.NewReaderSize(iotest1{bytes.NewReader(in)}, 16))
 	default:
@@ -87,10 +97,12 @@ func pickEntry(c *fw.Ctx) string {
 	switch k := c.Rand.Intn(1000); {
 	case k < 850:
 		return "Detect"
-	case k < 997:
+	case k < 996:
 		return "DetectReaderChunked"
-	default:
+	case k < 999:
 		return "DetectFile"
+	default:
+		return "DetectFileSymlink"
 	}
 }
 
@@ -131,6 +143,23 @@ func detectEntry(in []byte, limit uint32, entry string) *mimetype.MIME {
 		m, err := mimetype.DetectReader(&oddChunks{b: in})
 		if err != nil {
 			panic("DetectReader returned an error for a reader that never fails: " + err.Error())
+		}
+		return m
+	case "DetectFileSymlink": // the path names a symbolic link to the file
+		f := filepath.Join(os.TempDir(), fmt.Sprintf("verif-entry-%d-target.bin", os.Getpid()))
+		l := filepath.Join(os.TempDir(), fmt.Sprintf("verif-entry-%d-link", os.Getpid()))
+		if werr := os.WriteFile(f, in, 0o600); werr != nil {
+			panic("verif harness: temp file: " + werr.Error())
+		}
+		defer os.Remove(f)
+		os.Remove(l)
+		if os.Symlink(f, l) != nil {
+			return mimetype.Detect(in) // no symlinks here: fall back to the plain entry point
+		}
+		defer os.Remove(l)
+		m, err := mimetype.DetectFile(l)
+		if err != nil {
+			panic("DetectFile returned an error for a symbolic link to a readable file: " + err.Error())
 		}
 		return m
 	case "DetectFile":
